@@ -18,6 +18,9 @@ type Direct struct {
 	Contact  J   `json:"contact"`
 	Modifier J   `json:"modifier"`
 	MaxField int `json:"max_field"`
+	// Pre, if set, is a modifier applied to the contact object first: the judged application then
+	// starts from a state that was reached through the library rather than read from JSON
+	Pre J `json:"pre,omitempty"`
 }
 
 // DirectResult is what was observed.
@@ -93,6 +96,15 @@ func (w *World) Run(d *Direct) *DirectResult {
 			return
 		}
 		eng := w.Engine(d.MaxField)
+		if d.Pre != nil {
+			pj, _ := json.Marshal(d.Pre)
+			pre, err := modifiers.ReadModifier(w.SA, pj, assets.IgnoreMissing)
+			if err != nil {
+				r.NoModifier = true
+				return
+			}
+			modifiers.Apply(eng, w.Env, w.SA, c, pre, func(e flows.Event) {})
+		}
 		r.Before, _ = json.Marshal(c)
 		r.ContactBefore1 = c.Clone()
 		r.Modified = modifiers.Apply(eng, w.Env, w.SA, c, mod, func(e flows.Event) {
